@@ -403,7 +403,12 @@ func scenarioC13(c *hlib.RunCtx) *hlib.Violation {
 	for _, f := range finals {
 		put(f[0], []byte(f[1]))
 	}
-	c.Note("nontrivial")
+	for _, rs := range stored {
+		if len(rs) > 0 {
+			c.Note("nontrivial") // at least one report is stored
+			break
+		}
+	}
 	// merge every day but (sometimes) one
 	skipDay := -1
 	if ndays > 1 && t.Bool(1, 3) {
